@@ -11,7 +11,7 @@
    early, nobody ran it twice); at the end runs == 1 for every once; a call on a once that is
    already done performs no semaphore wait and at most 2 atomic steps.  Deadlock rule for
    "every call returns".  */
-#include "common.h"
+#include "sc.h"
 
 #define POOL 160
 #define MAXONCE 3
